@@ -109,8 +109,10 @@ def check_file(job):
             ctx = ""
             if _re.match(r"case\b", line) or " pattern" in (e.msg or ""):
                 ctx = "match_pattern:"          # a pattern of a match statement was rewritten
+            elif _re.match(r"for\s+\(?\s*_rt\._", line):
+                ctx = "for_target:"             # the target of a for STATEMENT was rewritten into a call (repaired: d309581)
             elif _re.search(r"\bfor\s+\(?\s*_rt\._", line):
-                ctx = "comprehension_target:"   # the target of a comprehension / loop was rewritten into a call
+                ctx = "comprehension_target:"   # the target of a comprehension / async for was rewritten into a call
             res["problems"].append(("C02:uncompilable:%s%s" % (ctx, msg[:60]), "instrumented output does not compile: %s at line %s: %s" % (e.msg, e.lineno, line)))
             return res
         except Exception as e:
